@@ -223,14 +223,5 @@ class Check(PropCheck):
 
     @staticmethod
     def same_matrix(a, b):
-        if a is None or len(a) != len(b):
-            return False
-        for x, y in zip(a, b):
-            if x == y:
-                continue
-            nx = vf.decode_num(x) if x and x[0] in 'fg' else None
-            ny = vf.decode_num(y) if y and y[0] in 'fg' else None
-            if nx is not None and ny is not None and nx.v == ny.v and nx.finite() and nx.v == 0:
-                continue       # the strict reader may store either zero sign-wise equal first occurrence
-            return False
-        return True
+        # bit for bit (f / g tokens carry the bits), taxa included
+        return a is not None and list(a) == list(b)
